@@ -1,5 +1,5 @@
 (* C03: links are authenticated to the peer that holds the key. *)
-From Bifrost Require Import Lib.Base Lib.Sym gen.Tls gen.TlsOid Tls.Model Tls.Proofs.
+From Bifrost Require Import Lib.Base Lib.Sym gen.Tls gen.TlsOid Tls.Model Tls.Proofs Link.Model Dial.Model Dial.Proofs.
 
 (* A chain is accepted exactly when it is one certificate for which x509
    verification (as own root) succeeds and whose first key extension carries a
@@ -105,6 +105,34 @@ Proof.
   split; [exact Hk|]. exists c, e, k. pose proof (H7 c03_self_signature_checked_on_this_tree). repeat split; auto.
 Qed.
 Print Assumptions c03_handshake.
+
+(* expected-peer enforcement at the level callers use it: Transport.DialPeer(x, _)
+   with the constraint passed to TLS, or (pconn / inproc / udp / websocket dial
+   functions) a handshake with an EMPTY constraint followed by DialPeer's
+   comparison of the link's remote peer with x.  Either way a link reported to a
+   caller that required x names x, and x is the authenticated key holder. *)
+Theorem c03_dial_expected : forall k x a id,
+  x <> 0 -> dial_expected k x a = Ok id ->
+  id = x /\ a_proves_key a = true /\
+  exists c e key, a_raw a = [RawCert c] /\ id = id_of key /\
+    find_key_ext (c_exts c) = Some e /\
+    e_value e = SignedKey (PkOf key) (SigBy key (binding_msg (c_key c))).
+Proof. exact dial_expected_ok. Qed.
+Print Assumptions c03_dial_expected.
+
+Theorem c03_enforcement_layers_agree : forall x a,
+  is_ok (dial_expected AtTls x a) = is_ok (dial_expected PostCheck x a).
+Proof. exact enforcement_layers_agree. Qed.
+Print Assumptions c03_enforcement_layers_agree.
+
+(* ... also when several DialPeer calls with DIFFERENT expected peers overlap on
+   one address and share the dial in flight (Dial/Model.v cstep, any
+   interleaving of calls, completions and losses): each caller is checked
+   against the peer IT required *)
+Theorem c03_overlapping_dials_expected_peer : forall a es i p x,
+  In (i, DLink p) (c_res (crun a es)) -> requested es i = Some x -> x <> 0 -> p = x.
+Proof. exact shared_dialer_safe. Qed.
+Print Assumptions c03_overlapping_dials_expected_peer.
 
 (* history form: in any sequence of connection attempts every established link
    names the key that signed the binding of the certificate whose key was proved *)
